@@ -80,9 +80,9 @@ def sval(s: str) -> str:
 ALNUM = "abcdefghijklmnopqrstuvwxyz0123456789"
 
 
-def gen_key(rng, used) -> str:
+def gen_key(rng, used, short: float = 0.0) -> str:
     while True:
-        k = "".join(rng.choice(ALNUM) for _ in range(4))
+        k = "".join(rng.choice(ALNUM) for _ in range(rng.randint(1, 3) if short and rng.random() < short else 4))
         if rng.random() < 0.3 and used:  # near-duplicates stress the ordering and the 2-letter abbreviations
             base = rng.choice(sorted(used))
             k = base[:3] + rng.choice(ALNUM)
@@ -151,13 +151,13 @@ def irregular_histories(rng, t0: datetime, end: datetime):
     return out
 
 
-def gen_site_info(rng, n: int, keys: Optional[List[str]] = None, irregular: float = 0.0) -> Dict[str, Any]:
+def gen_site_info(rng, n: int, keys: Optional[List[str]] = None, irregular: float = 0.0, short_keys: float = 0.0) -> Dict[str, Any]:
     """`keys`: generate new site information for these station codes (an *update* of an earlier dictionary);
     `irregular`: share of stations whose equipment histories have interruptions / own change dates per equipment type"""
     used: set = set()
     si: Dict[str, Any] = {}
     for i in range(len(keys) if keys is not None else n):
-        k = keys[i] if keys is not None else gen_key(rng, used)
+        k = keys[i] if keys is not None else gen_key(rng, used, short_keys)
         has_coord = rng.random() > 0.08
         x = gen_coord(rng)
         coord = NS(pos=NS(trs=NS(x=x, y=gen_coord(rng, allow_nan=False), z=gen_coord(rng, allow_nan=False))),
@@ -529,7 +529,7 @@ def case_crd(run: Run, rng, vel: bool, si=None):
 
     if si is None:
         n = rng.choice([1, 2, 3, 5, 8, 20, 60])
-        si = gen_site_info(rng, n)
+        si = gen_site_info(rng, n, short_keys=0.25)  # station codes of 1-3 characters next to the usual 4
         if rng.random() < 0.3:
             # ... and then updated site information for the same station codes, in the same process
             case_crd(run, rng, vel, si)
@@ -563,6 +563,7 @@ def case_crd(run: Run, rng, vel: bool, si=None):
         ctx.count(f"{writer}-beyond-range:{beyond}")
     epoch = rng.choice([None, datetime(2010, 1, 1), datetime(2023, 6, 1, 12, 30, 15)])
     datum = rng.choice(["IGb14", "IGS20", "ITRF2014", "UNKNOWN"])
+    ctx.count("crd-vel-short-codes", sum(1 for k in si if len(k) < 4))
     case = {"writer": writer, "stations": {k: [None if d["site_coord"].get("last") is None else
                                                ([float(v) for v in d["site_coord"]["last"].vel] if vel else
                                                 [d["site_coord"]["last"].pos.trs.x, d["site_coord"]["last"].pos.trs.y, d["site_coord"]["last"].pos.trs.z]),
@@ -990,6 +991,9 @@ def gen_tms_dataset(rng):
     has_east = rng.random() < 0.6
     if has_east:
         ref = Position(val=np.array([bases[si] for si, _ in rows]), system="trs")
+        if rng.random() < 0.4 and all(float(np.linalg.norm(b)) > 1e6 for b in bases):
+            # the reference position kept as latitude / longitude / height (the numbers of the array are not metres X, Y, Z)
+            ref = Position(val=np.asarray(ref.llh), system="llh")
         scale = rng.choice([0.05, 0.05, 5.0, 99999.0, 999999.0])
         enu = np.array([[rng.uniform(-scale, scale) for _ in range(3)] for _ in range(n)])
         d.add_position_delta(pre + "dsite_pos", val=enu, system="enu", ref_pos=ref)
@@ -997,8 +1001,10 @@ def gen_tms_dataset(rng):
             addf(nm, sig)
         d.meta["ref_epoch"] = "2010-01-01T00:00:00"
         d.meta["ref_frame"] = rng.choice(["IGb14", "IGS20"])
-    for nm in ("code_obs_num", "phase_obs_num"):
+    for nm in ("code_obs_num", "phase_obs_num", "code_outlier_num", "phase_outlier_num"):
         addf(nm, lambda: float(rng.randint(0, 99999)), None)
+    for nm in ("code_residual_rms", "phase_residual_rms"):
+        addf(nm, lambda: rng.uniform(0, 9.9999))
     for nm in ("receiver_clock", "trop_zenith_total", "trop_zenith_total_sigma"):
         addf(nm, lambda: rng.uniform(-100, 100))
     d.meta["station"] = stas[0].upper()
@@ -1026,10 +1032,12 @@ TMS_MEANING = {
     "SIG_E": lambda d, i: O(d).dsite_pos_east_sigma[i], "SIG_N": lambda d, i: O(d).dsite_pos_north_sigma[i],
     "SIG_U": lambda d, i: O(d).dsite_pos_up_sigma[i],
     "NOBSC": lambda d, i: O(d).code_obs_num[i], "NOBSP": lambda d, i: O(d).phase_obs_num[i],
+    "NOUTC": lambda d, i: O(d).code_outlier_num[i], "NOUTP": lambda d, i: O(d).phase_outlier_num[i],
+    "PRES_C": lambda d, i: O(d).code_residual_rms[i], "PRES_P": lambda d, i: O(d).phase_residual_rms[i],
     "RCV_CLK": lambda d, i: O(d).receiver_clock[i], "TROTOT": lambda d, i: O(d).trop_zenith_total[i],
     "SIG_TROTOT": lambda d, i: O(d).trop_zenith_total_sigma[i],
 }
-TMS_PRINTED = {"YEAR": 5, "NOBSC": 0, "NOBSP": 0}  # digits the format description promises (default 4)
+TMS_PRINTED = {"YEAR": 5, "NOBSC": 0, "NOBSP": 0, "NOUTC": 0, "NOUTP": 0}  # digits the format description promises (default 4)
 
 
 def tms_value(dset, field: str, i: int):
@@ -1213,9 +1221,40 @@ def tms_one_station(run: Run, rng, dft, d, sta, has_east, nsta):
             elif not near(float(g), float(want), prec if prec is not None else 4):
                 ctx.violate("sinex_tms:readback-values", f"column {c} row {r}: wrote {float(want)!r} read {float(g)!r}", case)
                 return
+    # ---- the same through as_dataset(): every observation field of the written dataset comes back under its own name
+    #      (the parser's column -> field table has to agree with the writer's field -> column table)
+    with quiet():
+        try:
+            ds = p.as_dataset()
+        except Exception as e:
+            ds = None
+            ctx.violate("sinex_tms:as-dataset-raises", f"sinex_tms parser: as_dataset() of the written file raises {type(e).__name__}: {e}", case)
+    if ds is not None:
+        GNSS = ("code_obs_num", "phase_obs_num", "code_outlier_num", "phase_outlier_num", "code_residual_rms", "phase_residual_rms")
+        names = [f.split(".")[-1] for f in raw_fields if f.split(".")[-1] not in ("obs", "time", "station", "site_pos", "dsite_pos", "domes", "flag")]
+        for nm in names:
+            try:
+                wrote = np.asarray(getattr(O(d), nm), dtype=float)
+            except Exception:
+                continue
+            if f"obs.{nm}" not in ds.fields:
+                if nm in GNSS:
+                    ctx.violate("sinex_tms:dataset-field-lost", f"the written dataset has obs.{nm}, the dataset read back has only "
+                                f"{[f for f in ds.fields if f.startswith('obs.')][:12]}", case)
+                    return
+                continue
+            got = np.asarray(ds[f"obs.{nm}"], dtype=float)
+            want = [float(wrote[first_of[t_us[idx_sta[k]]]]) for k in order]
+            prec = 0 if nm.endswith("_num") else 4
+            ctx.count("tms-dataset-fields-compared")
+            if len(got) != len(want) or not all(near(float(g), w, prec) for g, w in zip(got, want)):
+                ctx.violate("sinex_tms:dataset-readback", f"obs.{nm}: wrote {want[:4]}, as_dataset() of the written file has "
+                            f"{got[:4].tolist()} under that name", case)
+                return
     if "EAST" in cols:
         rc = back.get("ref_coordinate", {})
-        ref = np.asarray(O(d).dsite_pos.ref_pos)[idx_sta][0]
+        ref = np.asarray(O(d).dsite_pos.ref_pos.trs)[idx_sta][0]  # geocentric X, Y, Z whatever system it is kept in
+        ctx.count("tms-ref-pos-system:" + str(O(d).dsite_pos.ref_pos.system))
         if not (near(float(rc.get("ref_x", "nan")), ref[0], 4) and near(float(rc.get("ref_y", "nan")), ref[1], 4)
                 and near(float(rc.get("ref_z", "nan")), ref[2], 4) and str(rc.get("system")) == d.meta["ref_frame"]
                 and str(rc.get("site_code")).lower() == sta):
@@ -1534,6 +1573,17 @@ def case_csv(run: Run, rng):
         bad = next((j for j, (a, b) in enumerate(zip(model or [], lines[1:])) if a != b), None)
         ctx.disagree("csv_ data lines", {**case, "first_bad": bad}, None if model is None else model[bad or 0 : (bad or 0) + 2],
                      lines[1:][bad or 0 : (bad or 0) + 2])
+    # the parser's separator class against the model's line cutting: every data line gives one piece per field
+    cut = drv.ask([f"c17 csvsplit {hexs(l)}" for l in lines[1:]])
+    for l, a in zip(lines[1:], cut):
+        pieces = ["" if x in (".", "") else bytes.fromhex(x).decode("utf-8") for x in a.split(",")]
+        if pieces != re.split("[;,]", l):
+            ctx.disagree("csv_ line cut at the parser's separators", case, pieces, re.split("[;,]", l))
+            break
+        if len(pieces) != len(want_fields):
+            ctx.violate("csv_:separator-in-value", f"a data line has {len(pieces)} pieces for {len(want_fields)} fields: {l!r}", case)
+            break
+    ctx.count("csv-lines-cut", len(cut))
     if lines[0] != ",".join(want_fields):
         ctx.violate("csv_:header", f"header {lines[0]!r} for fields {list(want_fields)}", case)
     # read-back
